@@ -4,7 +4,7 @@ run all 19 quick checks against it (VERIF_REPO), record which checks report what
 import json, os, re, subprocess, sys, shutil
 from concurrent.futures import ThreadPoolExecutor
 V = os.path.dirname(os.path.dirname(os.path.abspath(__file__)))
-PIDS = [f"C{i:02d}" for i in range(1, 20)]
+PIDS = os.environ.get("MATRIX_PIDS", "").split() or [f"C{i:02d}" for i in range(1, 20)]
 
 def sh(cmd, cwd=None, env=None):
     e = dict(os.environ); e.update(env or {})
@@ -58,7 +58,7 @@ def one(sid):
 
 def main():
     ids = sys.argv[1:] or (["BASE"] + sorted(d for d in os.listdir(os.path.join(V, "seeded")) if os.path.isdir(os.path.join(V, "seeded", d))))
-    path = os.path.join(V, "seeded", "MATRIX.json")
+    path = os.path.join(V, "seeded", "MATRIX.json") if not os.environ.get("MATRIX_PIDS") else "/tmp/MATRIX_partial.json"
     M = json.load(open(path)) if os.path.exists(path) else {}
     with ThreadPoolExecutor(max_workers=5) as ex:
         for sid, res in ex.map(one, ids):
